@@ -100,6 +100,9 @@ struct Rng
 // ------------------------------------------------------------------------------------------------
 // tape
 // ------------------------------------------------------------------------------------------------
+// bytes reserved for a draw name in the binary case image (names are never longer than 95 characters)
+constexpr size_t kCaseNameBytes = 96;
+
 struct Entry
 {
   const char * name;  // string literal (generation) or interned string (replay)
@@ -622,11 +625,11 @@ struct Ctx
     if (commitBuf) {writeBinary(commitBuf, commitCap);}
   }
 
-  // binary image of the case: [u32 valid=0][u32 n][sub name 64][n x (name 48, kind 1, pad 7, i64, f64)]
+  // binary image of the case: [u32 valid=0][u32 n][sub name 64][n x (name 96, kind 1, pad 7, i64, f64)]
   // then valid=1; survives any abnormal termination because the region is a shared file mapping.
   void writeBinary(unsigned char * buf, size_t cap) const
   {
-    const size_t rec = 48 + 8 + 8 + 8;
+    const size_t rec = kCaseNameBytes + 8 + 8 + 8;
     size_t n = s.tape.size();
     if (8 + 64 + n * rec > cap) {n = (cap - 72) / rec;}
     uint32_t zero = 0, one = 1, n32 = static_cast<uint32_t>(n);
@@ -638,12 +641,12 @@ struct Ctx
     unsigned char * p = buf + 72;
     for (size_t k = 0; k < n; ++k) {
       const Entry & e = s.tape[k];
-      char nb[48] = {0};
-      strncpy(nb, e.name, 47);
-      memcpy(p, nb, 48);
-      p[48] = static_cast<unsigned char>(e.kind);
-      memcpy(p + 56, &e.i, 8);
-      memcpy(p + 64, &e.d, 8);
+      char nb[kCaseNameBytes] = {0};
+      strncpy(nb, e.name, kCaseNameBytes - 1);
+      memcpy(p, nb, kCaseNameBytes);
+      p[kCaseNameBytes] = static_cast<unsigned char>(e.kind);
+      memcpy(p + kCaseNameBytes + 8, &e.i, 8);
+      memcpy(p + kCaseNameBytes + 16, &e.d, 8);
       p += rec;
     }
     memcpy(buf, &one, 4);
